@@ -3,6 +3,7 @@
 UNITS = {
     "u1": {"kc": ["u1.kc"], "desc": "internal.rs + lib.rs + future.rs against the opaque-signal prelude"},
     "u2": {"kc": ["u2.kc"], "desc": "mutex.rs + backoff.rs + pointer-free part of signal.rs against atomic stand-ins"},
+    "C19": mk(["u1"], T_SIGNAL, [R1, R2, R3, A1, A2, A5], "full functional post-condition of drain_into including both loops"),
 }
 
 # exits that are legitimately unreachable under the stated pre-conditions (vacuity guard exceptions)
@@ -41,7 +42,8 @@ T_TIME = ["T9 Instant::now/checked_add/comparison (assumed clock token `reached`
 
 
 def mk(units, trusted, assumptions, explanation):
-    return {"units": units, "trusted": T_COMMON + trusted, "assumptions": assumptions, "explanation": explanation}
+    return {"units": units, "trusted": T_COMMON + trusted, "assumptions": assumptions, "explanation": explanation    "C19": mk(["u1"], T_SIGNAL, [R1, R2, R3, A1, A2, A5], "full functional post-condition of drain_into including both loops"),
+}
 
 
 PROPS = {
@@ -56,4 +58,5 @@ PROPS = {
     "C13": mk(["u1"], T_SIGNAL + T_TIME, [R1, R2, R3, A1, A4, A5], "timed operations: two critical sections, timeout only after a successful cancel under the lock, not before the deadline (clock token)"),
     "C14": mk(["u1"], T_SIGNAL, [R1, R2, A1, A5], "blocking-effect tokens in requires; total correctness of the non-blocking entry points"),
     "C18": mk(["u1"], T_SIGNAL + T_TIME, [R1, R2, R3, A1, A2, A3, A4, A5], "each entry point equals a deterministic reference function; panic- and overflow-freedom"),
+    "C19": mk(["u1"], T_SIGNAL, [R1, R2, R3, A1, A2, A5], "full functional post-condition of drain_into including both loops"),
 }
